@@ -111,7 +111,7 @@ def run(ctx):
     # ---- 2. spec -> code: generated runs with the outcome the meaning requires
     ph = ctx.seed
     gens = [("rel", ctx.pick(40, 1), 1, None), ("flags", ctx.pick(60, 2), 1, None), ("tests", 1, ctx.pick(40, 2), None),
-            ("pairs", ctx.pick(6, 2), 1, None), ("weird", 1, ctx.pick(4, 1), None),
+            ("pairs", ctx.pick(6, 2), 1, None), ("collide", 1, 1, None), ("weird", 1, ctx.pick(4, 1), None),
             ("walk", 1, 1, "num=%d" % ctx.pick(700, 20000))]
     if not q:
         gens += [("tests3", 1, 20, None), ("triples", 4, 1, None)]
